@@ -10,5 +10,5 @@ Extraction "c19_model.ml"
   listoffsets_split listoffsets_merge listoffsets_request listoffsets_client
   offsetfetch_request offsetfetch_map offsetcommit_request offsetcommit_map
   metadata_map read_partitions read_partitions_request read_partitions_call consumer_offsets_request consumer_offsets_result
-  effective_addr client_round_trip split_round_trip
+  effective_addr client_round_trip split_round_trip concat_merge listgroups_merge
   isort str_ltb str_eqb part_le make_time.
